@@ -2,6 +2,7 @@ import Canopy.Proof.StoreState
 import Canopy.Proof.IndexerCache
 import Canopy.Gen.Store
 import Canopy.Props.C19
+import Canopy.Model.SstFilter
 /-!
 # C10 — store read semantics and immutability of committed history
 
@@ -444,6 +445,133 @@ example :
   refine ⟨reachable_inv K2 K2_wf _ (by simp [OpOK, K2]) (by decide), by simp [OpOK, K2], by simp [KeepsHistory], ?_, ?_, ?_, ?_⟩
   all_goals simp [runOps, State.apply, State.readOnly, Handle.get, Handle.get.go, keyOK, decodeLenPrefixed]
   all_goals decide +kernel
+
+/-! ## a rollback erases the abandoned heights -/
+
+/-- **`rollback_erases_abandoned_heights`** — the complement of `history_immutable`. After `Rollback(t)` on a
+store at a later version, and after ANY further operations (in particular re-committing the abandoned heights
+with other writes):
+* the versioned map is the old one cut to the versions ≤ `t` (`m.rollback t`) with the later operations
+  applied (`specRun`) — it is a function of the cut map only, whatever the abandoned heights had written;
+* right after the rollback a reader at any version `v` — also `v > t` — sees the map as of `min v t`;
+* every read-only view, at every version `v` (below, at, or above the re-committed heights), returns for
+  point reads and forward/reverse prefix scans exactly that new history. -/
+theorem rollback_erases_abandoned_heights (K : Bytes → Prop) (hK : WFKeys K) (s : State) (m : VMap) (hi : Inv K s m)
+    (l : Layer) (hmain : s.main = [l]) (t : Nat) (ht0 : 0 < t) (ht : t < s.version)
+    (ops : List Op) (hops : ∀ op ∈ ops, OpOK K op) (hver : s.version + ops.length + 2 < maxVer) :
+    let s1 := s.apply (.rollback t)
+    let m' := specRun s1 (m.rollback t) ops
+    let s' := runOps s1 ops
+    s1.version = t ∧
+    (∀ e, e ∈ m.rollback t ↔ (e ∈ m ∧ e.2.1 ≤ t)) ∧
+    (∀ m₂ : VMap, m₂.rollback t = m.rollback t → specRun s1 (m₂.rollback t) ops = m') ∧
+    (∀ v k, readAt (m.rollback t) v k = readAt m (min v t) k) ∧
+    Inv K s' m' ∧
+    ∀ v, v ≤ maxVer →
+      (∀ k, K k → (s'.readOnly v).get k = some (readAt m' v k)) ∧
+      (∀ p reverse, PfxOK K p → keyOK p = true →
+        ∃ out, (s'.readOnly v).iter p reverse = some out ∧ IsScan (readAt m' v) p reverse out) := by
+  simp only
+  have hsp : specApply s m (.rollback t) = m.rollback t := by
+    simp only [specApply, hmain]; rw [if_neg (by omega)]
+  have hmv : maxVer = 18446744073709551615 := rfl
+  obtain ⟨hi1, hv1, _⟩ := hi.apply_spec hK (.rollback t) trivial (by omega)
+  rw [hsp] at hi1
+  have hver1 : (s.apply (.rollback t)).version = t := by
+    simp only [State.apply, hmain, State.rollback]
+    rw [if_neg (by omega), if_neg (by omega), if_neg (by omega)]
+    rfl
+  have hrun := hi1.run_spec hK ops hops (by rw [hver1]; omega)
+  refine ⟨hver1, fun e => mem_rollback, fun m₂ h => by rw [h], fun v k => readAt_rollback_any hi.rep.uniq t v k, hrun, ?_⟩
+  intro v hv
+  exact readOnly_refines K hK _ _ hrun v hv
+
+set_option linter.unusedSimpArgs false in
+/-- non-vacuity, on the sequence of the finding this theorem answers: `A=a1 B=b1` ⏎ `A=a2` ⏎ `Rollback(1)`
+`B=b2` ⏎ `B=b3` ⏎ — as of height 2 (re-committed without touching `A`, and no longer the tip) `A` reads `a1`,
+not the abandoned `a2`; the hypotheses of the theorem hold for it -/
+example :
+    let s := runOps {} [.set [1, 97] [0xA1], .set [1, 98] [0xB1], .commit, .set [1, 97] [0xA2], .commit]
+    let ops : List Op := [.set [1, 98] [0xB2], .commit, .set [1, 98] [0xB3], .commit]
+    (∃ m, Inv K2 s m) ∧ (∃ l, s.main = [l]) ∧ 1 < s.version ∧ (∀ op ∈ ops, OpOK K2 op) ∧
+    (s.readOnly 2).get [1, 97] = some (some [0xA2]) ∧
+    ((runOps (s.apply (.rollback 1)) ops).readOnly 2).get [1, 97] = some (some [0xA1]) ∧
+    ((runOps (s.apply (.rollback 1)) ops).readOnly 2).get [1, 98] = some (some [0xB2]) ∧
+    ((runOps (s.apply (.rollback 1)) ops).readOnly 3).get [1, 97] = some (some [0xA1]) := by
+  refine ⟨reachable_inv K2 K2_wf _ (by simp [OpOK, K2]) (by decide), ⟨_, rfl⟩, by decide +kernel, by simp [OpOK, K2], ?_, ?_, ?_, ?_⟩
+  all_goals simp [runOps, State.apply, State.readOnly, Handle.get, Handle.get.go, keyOK, decodeLenPrefixed]
+  all_goals decide +kernel
+
+/-! ## the sstable version filter is transparent — because deletions count -/
+
+open Canopy.SstFilter in
+/-- which point keys the block-property collector maps to a version, read off `versionedCollector.MapPointKey`:
+its only ignore-conditions are "shorter than a version" and "version 0 or the reserved version"; every other
+point key — of every kind, physical deletions included — contributes `[version, version+1)`; readers ask for
+`[low, high+1)` -/
+def collectorOfSource : Collector :=
+  if Gen.Store.mapPointKeyIgnores = ["len(userKey) < VersionSize", "version == 0 || version == maxVersion"] ∧
+     Gen.Store.mapPointKeyShape = ["userKey := key.UserKey", "ignore-if", "version := parseVersion(userKey)", "ignore-if", "return"] ∧
+     Gen.Store.mapPointKeyInterval = "sstable.BlockInterval{Lower: version, Upper: version + 1}" ∧
+     Gen.Store.versionWindowFilters = [("store/store.go", "newTargetWindowFilter(minVersion, maxVersion)"),
+       ("store/versioned_store.go", "newTargetWindowFilter(0, vs.version)"),
+       ("store/versioned_store.go", "sstable.NewBlockIntervalFilter( blockPropertyName, low, high+1, nil, )")]
+  then .everyKind else .skipsDeletions
+
+theorem collector_counts_every_kind : collectorOfSource = .everyKind := by decide
+
+open Canopy.SstFilter in
+/-- **`version_filter_transparent`** — with that collector, whatever the sstables are (however commits,
+rollbacks, flushes and compactions have laid the records out), a reader at version `v` that skips the tables
+whose version interval misses `[0, v+1)` takes into account exactly the records of versions `1 … v` it would
+without the filter: the store model's unfiltered key space is what the filtered readers see. -/
+theorem version_filter_transparent (v : Nat) (hv : v < maxVer) (ts : List Table) :
+    visible collectorOfSource v ts = unfiltered v ts ∧ ∀ uk, SstFilter.read collectorOfSource v ts uk = readOf (unfiltered v ts) uk := by
+  rw [collector_counts_every_kind]
+  have h : visible .everyKind v ts = unfiltered v ts := by
+    unfold visible unfiltered
+    induction ts with
+    | nil => rfl
+    | cons t ts ih =>
+      rw [List.filter_cons]
+      by_cases ha : admitted .everyKind v t = true
+      · rw [if_pos ha, List.flatten_cons, List.flatten_cons, List.filter_append, List.filter_append, ih]
+      · rw [if_neg ha, List.flatten_cons, List.filter_append, ih]
+        have : t.filter (inWindow v) = [] := by
+          rw [List.filter_eq_nil_iff]
+          intro r hr hw
+          apply ha
+          unfold admitted
+          rw [List.any_eq_true]
+          refine ⟨r, hr, ?_⟩
+          simp only [inWindow, Bool.and_eq_true, decide_eq_true_eq] at hw
+          have hc : contributes .everyKind r = some r.ver := by
+            unfold contributes
+            rw [if_neg (by omega)]
+          rw [hc]
+          simp [hw.2]
+        rw [this, List.nil_append]
+  exact ⟨h, fun uk => by unfold SstFilter.read; rw [h]⟩
+
+open Canopy.SstFilter in
+/-- the layout of the finding: sstable 1 holds heights 1 and 2 (`A=a1 B=b1`, `A=a2`); sstable 2 holds the
+physical deletion `Rollback(1)` wrote for `A@2`; the re-committed heights 2 and 3 (`B=b2`, `C=c3`) follow -/
+def rewoundTables : List SstFilter.Table :=
+  [[⟨[1, 97], 1, 1, some [0xA1]⟩, ⟨[1, 98], 1, 2, some [0xB1]⟩, ⟨[1, 97], 2, 3, some [0xA2]⟩],
+   [⟨[1, 97], 2, 4, none⟩],
+   [⟨[1, 98], 2, 5, some [0xB2]⟩, ⟨[1, 99], 3, 6, some [0xC3]⟩]]
+
+open Canopy.SstFilter in
+/-- **were physical deletions not counted, the filter would not be transparent**: the table holding only the
+rollback's deletion gets the empty interval, every historical reader skips it, and the rolled-back `A=a2` in
+the older table is visible again as of height 2 — while with the real collector `A` reads `a1`. -/
+theorem collector_skipping_deletions_resurrects_rolled_back_entry :
+    SstFilter.read .skipsDeletions 2 rewoundTables [1, 97] = some [0xA2] ∧
+    SstFilter.read collectorOfSource 2 rewoundTables [1, 97] = some [0xA1] ∧
+    admitted .skipsDeletions 2 [⟨[1, 97], 2, 4, none⟩] = false ∧
+    admitted collectorOfSource 2 [⟨[1, 97], 2, 4, none⟩] = true := by
+  decide +kernel
+
 
 def H32 : Bytes := List.replicate 32 0xAB
 def T32 : Bytes := List.replicate 32 0x71
